@@ -374,3 +374,16 @@ PROPS["C01"] = _tx("C01", ["C01_staged_file_is_source", "C01_store_is_stage_step
     " PARTIAL: the composition of the two halves over the two-machine system with a lossy/reordering link ('the link delivers "
     "only what was sent', C04's 'sender success implies receiver success') is argued in DESIGN.md, not mechanised; real task "
     "interleavings are outside the model.")
+
+PROPS["C03"] = _tx("C03", ["C03_receiver_invariant", "C03_receiver_initial", "C03_receiver_never_stuck",
+                           "C03_sender_invariant", "C03_sender_initial", "C03_sender_never_stuck",
+                           "C03_timer_limit_in_bounded_time"], ["recv", "send"],
+    "Proof (PARTIAL): for every reachable state of both machines an active transaction is never stuck - the send arm is "
+    "enabled or a timer with a finite deadline runs (this is the invariant whose failure was the pinned defect: a cancelled "
+    "sender whose EOF had been acknowledged waited forever); every running timer reaches its limit after exactly max_count "
+    "periods and the limit's handler cancels/abandons (C17). Lock-step correspondence including idle drives (the loop left "
+    "alone after any prefix of an exchange: send while enabled, else sleep to the next deadline and run the timeout arm) "
+    "compared step by step with the model, and an oracle on the real code: the drive must reach Terminated, never get stuck, "
+    "and do so within (3*max_count+3)*max timeout + NAK delay of silence.",
+    " NOT mechanised: the closed-form bound for the whole run (ranking over the limit rounds of the successive phases); the "
+    "daemon serving other transactions meanwhile (C11); transport back-pressure (a link that never accepts a PDU).")
